@@ -35,7 +35,7 @@ func (builder *Builder) OptionByName(name string) (Option, bool) {
 
 func (builder *Builder) DeepCopy() Builder {
 	clone := Builder{
-		For:         builder.For,
+		For:         builder.For.DeepCopy(),
 		Package:     builder.Package,
 		Name:        builder.Name,
 		Properties:  make([]StructField, 0, len(builder.Properties)),
@@ -51,6 +51,9 @@ func (builder *Builder) DeepCopy() Builder {
 	}
 	for _, opt := range builder.Options {
 		clone.Options = append(clone.Options, opt.DeepCopy())
+	}
+	for _, factory := range builder.Factories {
+		clone.Factories = append(clone.Factories, factory.DeepCopy())
 	}
 
 	return clone
